@@ -13,7 +13,9 @@ package validation_test
 //	companion-pays                the set next to a single-key set that pays
 //	other-threshold-account-pays  one set, payer = the m'-of-n account (m' != m) of the same keys
 //
-// so that accounts that differ ONLY in the threshold meet in one process.
+// so that accounts that differ ONLY in the threshold meet in one process; and
+// a "subsets" family: every subset (>= 2 keys) of 4 keys with every threshold
+// (own-account form), so that accounts whose key sets contain one another meet.
 //
 // Fresh-process histories: a history is executed as the first transactions of
 // a re-execution of the test binary (VERIF_BIN), one process per history:
@@ -76,6 +78,8 @@ type c17HStep struct {
 	Candidates []string `json:"candidates"`
 	ExpAccept  bool     `json:"expected_accept"`
 	ExpSigners []string `json:"expected_signers"`
+	// quick tier: is this transaction the first one of a fresh-process history (thorough: every transaction is)
+	quickFirst bool
 }
 
 // what one step showed
@@ -161,17 +165,26 @@ func c17HJudge(st c17HStep, o c17HObs) (what, detail string) {
 
 // ------------------------------------------------------------- alphabet ----
 
+// a key family: Subsets=false: ONE set of N keys, every threshold, two key orders, three transaction forms;
+// Subsets=true: every subset (>= 2 keys) of N keys with every threshold, own-account form, canonical order —
+// accounts whose key sets are contained in one another meet in one process.
 type c17HFamily struct {
-	Pool string
-	N    int
+	Pool    string
+	N       int
+	Subsets bool
 }
 
-func (f c17HFamily) name() string { return fmt.Sprintf("%s-n%d", f.Pool, f.N) }
+func (f c17HFamily) name() string {
+	if f.Subsets {
+		return fmt.Sprintf("%s-subsets-of-%d", f.Pool, f.N)
+	}
+	return fmt.Sprintf("%s-n%d", f.Pool, f.N)
+}
 
 func c17HFamilies(thorough bool) []c17HFamily {
-	fs := []c17HFamily{{"p256", 2}, {"p256", 3}, {"p256", 4}, {"mixed", 3}}
+	fs := []c17HFamily{{"p256", 2, false}, {"p256", 3, false}, {"p256", 4, false}, {"mixed", 3, false}, {"p256", 4, true}}
 	if thorough {
-		fs = append(fs, c17HFamily{"mixed", 2}, c17HFamily{"mixed", 4})
+		fs = append(fs, c17HFamily{"mixed", 2, false}, c17HFamily{"mixed", 4, false}, c17HFamily{"mixed", 4, true})
 	}
 	return fs
 }
@@ -201,7 +214,32 @@ func c17HAlphabet(f c17HFamily) []c17HStep {
 	sorted := c1617SortKeys(ks)
 	comp := c17Set{Keys: []c17KeyUse{{c1617K("p256", 50), "canon", ""}}, M: 1, Desc: "companion p256"}
 	var txs []c17HTx
-	for m := 1; m <= f.N; m++ {
+	if f.Subsets {
+		// subsets in order of size, then of the positions of their keys in the canonical order
+		for size := 2; size <= f.N; size++ {
+			for mask := 1; mask < 1<<uint(f.N); mask++ {
+				var sub []c1617Key
+				var pos []int
+				for i := 0; i < f.N; i++ {
+					if mask&(1<<uint(i)) != 0 {
+						sub = append(sub, sorted[i])
+						pos = append(pos, i)
+					}
+				}
+				if len(sub) != size {
+					continue
+				}
+				for m := 1; m <= size; m++ {
+					st := c17Set{M: m, Desc: fmt.Sprintf("%d-of-%d %s keys %v of %d sorted", m, size, f.Pool, pos, f.N)}
+					for _, k := range sub {
+						st.Keys = append(st.Keys, c17KeyUse{k, "canon", ""})
+					}
+					txs = append(txs, c17HTx{c17Tx{[]c17Set{st}, st.account(), st.Desc + " | payer=its account"}, c17FormOwn, m, "sorted"})
+				}
+			}
+		}
+	}
+	for m := 1; m <= f.N && !f.Subsets; m++ {
 		for _, order := range []string{"sorted", "unsorted"} {
 			st := c17Set{M: m, Desc: fmt.Sprintf("%d-of-%d %s keys %s", m, f.N, f.Pool, order)}
 			for i := range sorted {
@@ -225,6 +263,9 @@ func c17HAlphabet(f c17HFamily) []c17HStep {
 	var out []c17HStep
 	for _, x := range txs {
 		s := c17HStep{Desc: x.Tx.Desc, Form: x.Form, RawTx: c1617Hex(x.Tx.build())}
+		// quick tier's first transactions: every own-account form of a one-set family; the transactions of the
+		// largest set of a subsets family
+		s.quickFirst = x.Form == c17FormOwn && (!f.Subsets || len(x.Tx.Sets[0].Keys) == f.N)
 		for _, a := range x.Tx.candidates() {
 			s.Candidates = append(s.Candidates, c1617Hex(a[:]))
 		}
@@ -347,12 +388,12 @@ func c17HDetail(place string, c c17HCase, what, why string) string {
 	case c17PlaceFirst:
 		where = "as the very first transaction of a fresh process"
 	case c17PlaceLater:
-		where = fmt.Sprintf("in a fresh process, after %d earlier transaction(s) over the same keys", c.Before)
+		where = fmt.Sprintf("in a fresh process, after %d earlier transaction(s) of the same key family", c.Before)
 	default:
 		where = fmt.Sprintf("in a long-lived process (%d transactions handled before), right after [%s]", c.Before, c.History[0].Desc)
 	}
-	return fmt.Sprintf("%s: %s — %s; from the bytes alone: accepted=%v, signer set %v.  history: %s",
-		last.Desc, where, why, last.ExpAccept, last.ExpSigners, c17HDescs(c.History))
+	return fmt.Sprintf("%s: %s — %s; from the bytes alone: accepted=%v, signer set %v; a never-validated decode of the same bytes reports %v and CheckWitness answers true on it for %v.  history: %s",
+		last.Desc, where, why, last.ExpAccept, last.ExpSigners, c.Seen.Fresh, c.Seen.WitFresh, c17HDescs(c.History))
 }
 
 // --------------------------------------------------------------- the unit ----
@@ -373,7 +414,7 @@ func c17HItems(thorough bool) []c17HItem {
 			modes = append(modes, c17ModeSync)
 		}
 		for i, s := range alpha {
-			if !thorough && s.Form != c17FormOwn {
+			if !thorough && !s.quickFirst {
 				continue
 			}
 			for _, m := range modes {
@@ -498,8 +539,8 @@ func TestVerif_C17_hist(t *testing.T) {
 	defer r.Finish()
 	t0 := time.Now()
 	defer func() { r.Set("history_wall_s", time.Since(t0).Seconds()) }()
-	r.Rule("transaction histories in one process. Alphabet per key family (n = 2..4 keys, P-256-only and mixed key types): every m-of-n script over the SAME keys (keys in canonical and in reversed order) as a transaction paid by its own account, paid by a single-key companion set, and paid by the m'-of-n account of the same keys for every m' != m. " +
-		"Fresh-process histories: [A, B1..Bk] (k = the family's whole alphabet) executed as the first transactions of a re-execution of the test binary, one process per first transaction A (quick: every own-account form; thorough: every transaction of the alphabet, in both handling modes). " +
+	r.Rule("transaction histories in one process. Alphabet per key family (n = 2..4 keys, P-256-only and mixed key types): every m-of-n script over the SAME keys (keys in canonical and in reversed order) as a transaction paid by its own account, paid by a single-key companion set, and paid by the m'-of-n account of the same keys for every m' != m; plus a subsets family: every subset (>= 2 keys) of 4 keys with every threshold, paid by its own account. " +
+		"Fresh-process histories: [A, B1..Bk] (k = the family's whole alphabet) executed as the first transactions of a re-execution of the test binary, one process per first transaction A (quick: every own-account form, for the subsets family those of the 4-key set; thorough: every transaction of the alphabet, in both handling modes). " +
 		"Long-lived process: in the harness process a walk handling every ordered pair (A, B) of the family's alphabet back to back, for the four combinations of handling modes (admit = validate first, sync = never-validated decode and CheckWitness first). " +
 		"At every step: validator verdict, validator signer set, address set of a never-validated decode and the candidates for which SmartContract.CheckWitness answers true (on the validated and on a never-validated object) must equal the expectation the harness computes from the bytes alone (hashes of its own canonical scripts); distinct = (place in the history, verdict, transaction form)")
 	r.Assume("ECDSA/SM2 signing is randomised; only accept/reject and address sets are observed. A child process handles nothing before the first step of its history (keys and bytes are prepared by the parent and handed over on stdin).")
@@ -602,6 +643,7 @@ func TestVerif_C17_hist(t *testing.T) {
 	close(next)
 	wg.Wait()
 	r.Need(firstErr == nil, "fresh-process history: %v", firstErr)
+	r.Set("fresh_process_wall_s", time.Since(t0).Seconds())
 
 	// the long-lived process: this one
 	handled := 0
